@@ -56,18 +56,23 @@ def stepMsg (st magic hex : String) (extra : List String) : String :=
 /-- `dmsg <package.Type> <hex> …` → ok <consumed> <re-encoding> | err | unmodelled: the payload codec of a
     p2p / DPoS p2p message, decoded with the schema derived (`WireTokens.ofToks`) from the regenerated,
     fully inlined read-token stream of its `Deserialize` -/
-def stepDmsg (name hex : String) : String :=
+def stepDmsg (name hex : String) (own : Bool) : String :=
   match ElaVerif.WireTokens.findStream ElaVerif.Gen.C02.msgStreams name, ElaVerif.WireDriver.hexBytes? hex with
   | some s, some bs =>
     let ty := ElaVerif.WireTokens.ofToks s.de
     if ElaVerif.WireTokens.hasFail ty then "unmodelled" else
     match (ElaVerif.Wire.decodeA ty bs).res with
-    | some (v, rest) => s!"ok {bs.length - rest.length} {ElaVerif.WireDriver.toHex (ElaVerif.Wire.encode ty v)}"
+    | some (v, rest) =>
+      -- the re-encoding is compared only for bytes the real writer produced (some readers are not
+      -- canonical: a vote's accept byte is read as "== 1")
+      if own then s!"ok {bs.length - rest.length} {ElaVerif.WireDriver.toHex (ElaVerif.Wire.encode ty v)}"
+      else s!"ok {bs.length - rest.length}"
     | none => "err"
   | _, _ => "bad-op"
 
 def step : List String → String
-  | "dmsg" :: name :: hex :: _ => stepDmsg name hex
+  | ["dmsg", name, hex, "own"] => stepDmsg name hex true
+  | "dmsg" :: name :: hex :: _ => stepDmsg name hex false
   | "msg" :: st :: magic :: hex :: extra => stepMsg st magic hex extra
   | t => ElaVerif.WireDriver.step t
 
